@@ -609,7 +609,7 @@ impl Monitor for C04 {
         vec![("runs", tier.pick(21_000, 420_000)), ("exact_fit", tier.pick(6_000, 120_000)), ("big_batches", tier.pick(600, 12_000)), ("split_runs", tier.pick(9_000, 180_000)), ("block_inline", tier.pick(9_000, 180_000)), ("block_twin", tier.pick(6_000, 120_000))]
     }
     fn rule(&self) -> &'static str {
-        "case i -> objective (i mod 7), optimizer kind (i/7 mod 5: SGD, SGDM, Adam, AdamW, RMSprop with random decay / dampening / momentum / centred), N in 1..23, B from {1,2,3,5,7,N-1,N,N+1, one of 64 / 1000 / usize::MAX/2 / usize::MAX-3 / usize::MAX} (so B=1, B not dividing N and B>N occur in every block of nine cases), E in 1..5, validation data in every second case, the objective gradient clamped in every fifth case, 6..12 epochs in every ninth, a print frequency of 1 / 2 / 3 / 5 epochs in every fourth (what learn() does and returns must not depend on it), pools of 1..8 threads; random network of dense/conv/deconv/max-pool layers ending in a dense layer, pairwise different samples. (a) the hooked Forward/Update event log of the learn() call (and, in every third case, of a second learn() call on the same network, with another batch size and only a prefix of the samples; the twin trainer of (b) goes through both calls, carrying the optimizer state over, and the weights after the second call are compared as well; in every second of these cases a newly created optimizer of the same kind with half the learning rate is installed between the calls and the twin starts the second call from fresh optimizer state) must match the trace grammar: per epoch the consecutive groups of B samples, each sample's forward pass exactly once and all before the group's single Update, Update step number = epoch index, then every validation sample once; nothing else. (b) a twin trainer recomputes the run: per-sample gradients from the library's own forward + hooked backward at the twin's weights, summed in sample order, one step of the documented update rule per group; final weights must agree within 1e-4 x (|w| + distance travelled) + 1e-6 and the per-epoch loss must equal the mean over groups of the mean per-sample loss. big_batches: the same two checks with N in {65,66,70,100,127..130,150,200,257} and B in {N, N-1, 64, 65, 70, 100, 128, 129, random 65..N} (groups larger than the library's parallel chunk of 64, mostly not a multiple of it), small networks. exact_fit: the same two checks on dense networks whose first layer is a ReLU layer with positive weights and negative bias followed by bias-free layers, with runs of samples that are fitted exactly (negative inputs, zero targets: loss 0, gradient 0) between ordinary samples, objectives AE / MAE / MSE: a group whose samples are all fitted exactly still receives its optimizer step (momentum, moment estimates and weight decay keep acting). split_runs: architectures the twin does not model (feedback blocks with and without bias, a skip or a loop connection), plain SGD with and without decay: one learn() call over G groups and E epochs must leave bit-identical weights to E*G learn() calls of one group each on an identically built network, and report the mean of those calls' losses per epoch (nothing is carried from one group to the next). block_twin: chain networks with one feedback block (mean coupling, no internal skips, 1..4 loops, all five optimizers): the twin lets every unrolled copy take one step of the documented rule on the sum of its own per-sample gradients (own state per copy) and couples the copies by the arithmetic mean; final weights and epoch losses as in `runs`, the tolerance additionally loosened by the sensitivity of the run (distance to a twin started one ulp away) and, for the optimizers that normalise the step by a running gradient magnitude, 2e-3 instead of 1e-4 of the distance travelled; runs whose weights grow beyond 50x the initial scale or whose loss exceeds 1e6, and runs in which the one-ulp twin or the f32 twin ends more than 0.1 % away from the f64 twin (rounding noise amplified), are counted, not judged. block_inline: a chain network and the same network with one shape-preserving layer wrapped into a feedback block of ONE loop (no internal skips) are trained with the same data and the same optimizer (all five kinds, stateful ones included): final weights and epoch losses must agree (1e-3 relative to the weight change; bit-identical pairs are counted). Distinct = distinct (network, optimizer, N, B, E) descriptors."
+        "case i -> objective (i mod 7), optimizer kind (i/7 mod 5: SGD, SGDM, Adam, AdamW, RMSprop with random decay / dampening / momentum / centred), N in 1..23, B from {1,2,3,5,7,N-1,N,N+1, one of 64 / 1000 / usize::MAX/2 / usize::MAX-3 / usize::MAX} (so B=1, B not dividing N and B>N occur in every block of nine cases), E in 1..5, validation data in every second case, the objective gradient clamped in every fifth case, 6..12 epochs in every ninth, a loop connection (1..2 iterations, add / mean, gradient scaling 1/x or 1/sqrt(x): part of the per-sample gradient, not of the step) over a shape-preserving range of layers in every fifth, a print frequency of 1 / 2 / 3 / 5 epochs in every fourth (what learn() does and returns must not depend on it), pools of 1..8 threads; random network of dense/conv/deconv/max-pool layers ending in a dense layer, pairwise different samples. (a) the hooked Forward/Update event log of the learn() call (and, in every third case, of a second learn() call on the same network, with another batch size and only a prefix of the samples; the twin trainer of (b) goes through both calls, carrying the optimizer state over, and the weights after the second call are compared as well; in every second of these cases a newly created optimizer of the same kind with half the learning rate is installed between the calls and the twin starts the second call from fresh optimizer state) must match the trace grammar: per epoch the consecutive groups of B samples, each sample's forward pass exactly once and all before the group's single Update, Update step number = epoch index, then every validation sample once; nothing else. (b) a twin trainer recomputes the run: per-sample gradients from the library's own forward + hooked backward at the twin's weights, summed in sample order, one step of the documented update rule per group; final weights must agree within 1e-4 x (|w| + distance travelled) + 1e-6 and the per-epoch loss must equal the mean over groups of the mean per-sample loss. big_batches: the same two checks with N in {65,66,70,100,127..130,150,200,257} and B in {N, N-1, 64, 65, 70, 100, 128, 129, random 65..N} (groups larger than the library's parallel chunk of 64, mostly not a multiple of it), small networks. exact_fit: the same two checks on dense networks whose first layer is a ReLU layer with positive weights and negative bias followed by bias-free layers, with runs of samples that are fitted exactly (negative inputs, zero targets: loss 0, gradient 0) between ordinary samples, objectives AE / MAE / MSE: a group whose samples are all fitted exactly still receives its optimizer step (momentum, moment estimates and weight decay keep acting). split_runs: architectures the twin does not model (feedback blocks with and without bias, a skip or a loop connection), plain SGD with and without decay: one learn() call over G groups and E epochs must leave bit-identical weights to E*G learn() calls of one group each on an identically built network, and report the mean of those calls' losses per epoch (nothing is carried from one group to the next). block_twin: chain networks with one feedback block (mean coupling, no internal skips, 1..4 loops, all five optimizers): the twin lets every unrolled copy take one step of the documented rule on the sum of its own per-sample gradients (own state per copy) and couples the copies by the arithmetic mean; final weights and epoch losses as in `runs`, the tolerance additionally loosened by the sensitivity of the run (distance to a twin started one ulp away) and, for the optimizers that normalise the step by a running gradient magnitude, 2e-3 instead of 1e-4 of the distance travelled; runs whose weights grow beyond 50x the initial scale or whose loss exceeds 1e6, and runs in which the one-ulp twin or the f32 twin ends more than 0.1 % away from the f64 twin (rounding noise amplified), are counted, not judged. block_inline: a chain network and the same network with one shape-preserving layer wrapped into a feedback block of ONE loop (no internal skips) are trained with the same data and the same optimizer (all five kinds, stateful ones included): final weights and epoch losses must agree (1e-3 relative to the weight change; bit-identical pairs are counted). Distinct = distinct (network, optimizer, N, B, E) descriptors."
     }
     fn assumptions(&self) -> Vec<&'static str> {
         vec![
@@ -703,6 +703,32 @@ impl Monitor for C04 {
         if let LCfg::Dense { n, .. } = &mut cfg.layers[last] {
             *n = outputs;
         }
+        // every fifth case: a loop connection over a range of layers that maps a shape to itself
+        // (1..2 iterations, add or mean accumulation, gradient scaling 1/x or 1/sqrt(x)). The
+        // scaling is part of the per-sample gradients, which the twin takes from the library's
+        // backward pass; the step must be taken on their plain sum
+        if !exact && idx % 5 == 3 && last >= 1 {
+            if let Ok(shapes) = cfg.shapes() {
+                let mut ranges: Vec<(usize, usize)> = Vec::new();
+                for a in 0..last {
+                    for b in a..last.min(a + 2) {
+                        if shapes[a].0 == shapes[b].1 && !(a..=b).any(|i| matches!(cfg.layers[i], LCfg::Feedback { .. })) {
+                            ranges.push((a, b));
+                        }
+                    }
+                }
+                if !ranges.is_empty() {
+                    let (a, b) = *rng.pick(&ranges);
+                    cfg.loops = vec![(b, a, rng.range(1, 2), false)];
+                    cfg.loopacc = *rng.pick(&[Acc::Add, Acc::Mean]);
+                    cfg.loopscale = *rng.pick(&[0usize, 2]);
+                    if cfg.shapes().is_err() {
+                        cfg.loops.clear();
+                    }
+                }
+            }
+        }
+        let with_loop = !cfg.loops.is_empty();
         let mut params = gen_params(&cfg, &mut rng, -0.8, 0.8).unwrap();
         let mut train = random_data(&mut rng, cfg.input, n, outputs, obj, softmax);
         if exact {
@@ -783,6 +809,9 @@ impl Monitor for C04 {
         });
         if print.is_some() {
             out.count("runs_with_a_print_frequency", 1);
+        }
+        if with_loop {
+            out.count("runs_on_networks_with_a_loop_connection", 1);
         }
         let (tl, vl, _va) = match res {
             Ok(r) => r,
